@@ -42,6 +42,26 @@ M={
  'C18-b':('C18','the grouped arm of the wrapper selection placed before the session arm.','grouped: true and session: true together','C18 (C18/inspect/wrap/session)'),
  'C19-b':('C19','the signal-terminated arm of From<ExitStatus> builds the signal from the raw wait status instead of es.signal().','a status with the core-dump bit','C19 (C19/exit-signal/<n>/core)'),
  'C20-b':('C20','origins() folded into a loop that never examines a directory without a parent.','a marker in the filesystem root','C20 (C20/origins/missed-filesystem-root/...) after the chroot leg was added'),
+ 'C01-c':('C01','fs.rs process_event propagates a failed metadata() lookup as a runtime error instead of ignoring it: every notify event naming a path that no longer exists (remove, rename-from) is dropped before it is queued.','a filesystem event for a path that is gone by the time the callback runs','C01 (C01/fs-event-lost)'),
+ 'C02-c':('C02','Config::throttle() truncates the duration to whole milliseconds.','a throttle that is not a whole number of milliseconds (1.9 ms -> 1 ms, 0.9 ms -> no debouncing)','C02 (lower bound and DebounceModel keys) after sub-millisecond throttle scenarios were added'),
+ 'C03-c':('C03','GlobsetFilterer::new de-duplicates the ignore files through a HashSet before IgnoreFilter::new: listed order lost, different on every construction.','two conflicting ignore files applying in one directory, filter built through the globset filterer (the CLI path)','C03 (C03/globset-handoff/...) after the hand-off leg was added'),
+ 'C04-c':('C04','the forced continuation kills and reaps only when a graceful restart is pending, but still resets and spawns.','raw ContinueTryGracefulRestart on a running job with nothing pending','C04 (C04/spawn-after-unreaped-drop/...), C09'),
+ 'C05-c':('C05','Control::Start no longer checks is_running(): a start that finds the job running drops the child and spawns another.','two actions decided before the first start is processed (--delay-run): the second start hits a running job','C05 (C05/<mode>/running-command-was-dropped) after the dropped-while-running clause was added; C04, C09'),
+ 'C06-c':('C06','the *_with_signal entry points use the plain stop / restart when the grace period is zero.','stop_with_signal / restart_with_signal / try_restart_with_signal with grace 0 and a signal other than KILL','C06 (C06/killed-without-the-requested-signal/...) after the signal-first clause was added; C09'),
+ 'C07-c':('C07','Ticket::poll samples job_gone.raised() once and then polls only control_done: a parked waiter is never registered on the job-gone flag.','a ticket already being awaited whose control never completes (queued behind delete, overtaken by delete_now, handle dropped)','C07 (C07/ticket-open/.../waiters-missing-all)'),
+ 'C08-c':('C08','LateJoinSet::drop clears before aborting (same site as C08-a, found independently).','abort quit while a clone of the job handle is held outside','C08 (C08/process-left-behind/<class>+HeldOutside ...)'),
+ 'C09-c':('C09','Job::restart() sends [TryRestart, Start] instead of [Stop, Start].','restart of a running command whose respawn fails: two spawn attempts, two hook calls, previous result overwritten','C09 (C09/not-a-model-trace/unexpected-spawn/after-Restart)'),
+ 'C10-c':('C10','the multi-control branch of send_controls sends every control at normal priority: delete_now is no longer urgent.','delete_now while other controls are pending or a grace timer is armed','C10 (C10/high-ran-while-urgent-pending, C10/normal-ran-while-urgent-pending)'),
+ 'C11-c':('C11','whitelist sorted by raw bytes, looked up by binary search with Path ordering.','two explicitly watched files whose byte order and component order disagree (src/main.rs, src-gen/out.rs)','C11 (C11/whitelisted-file-rejected/several-whitelisted-files) after the whitelist-lookup leg was added'),
+ 'C12-c':('C12','normalise() sets no_discover_ignore when --no-vcs-ignore and --no-project-ignore are both given.','that flag pair with a non-empty global watchexec ignore file','C12 (C12/source-removed-by-unrelated-flag/global-app-ignore/...)'),
+ 'C13-c':('C13','WatchedPath compares and hashes by path only.','the same path reconfigured from recursive to non-recursive (or back) at run time','C13 (C13/wrong-recursion-mode)'),
+ 'C14-c':('C14','DirTourist::new drops explicit watch paths the pre-built filter ignores; an empty list means "everything".','every explicit watch lies inside an ignored / VCS directory','C14 (C14/returned-from-pruned-subtree/unrelated-to-explicit-watch)'),
+ 'C15-c':('C15','ChangeableFn::call runs the handler while the read lock on its own slot is held.','an error handler that replaces itself (config.on_error) from inside the handler: deadlock, later errors never delivered','C15 (C15/execution-never-returns, watchdog)'),
+ 'C16-c':('C16','numeric JSON signals are mapped through Signal::from(n): Custom(1|2|3|9|10|12|15) parses back as the first-class signal.','a custom signal whose number equals a first-class signal','C16 (C16/roundtrip/signal/custom, C16/roundtrip/completion/signal)'),
+ 'C17-c':('C17','common_prefix() finds the first differing component with position(): a later path that is a strict ancestor of the prefix never shortens it.','a deeper path first, then a path directly in the common directory (or a Dir event for it)','C17 (C17/env/common/not-longest-common-directory)'),
+ 'C18-c':('C18','the forced continuation runs the hook on one spawnable and spawns a fresh one.','spawn hook + try_restart_with_signal + the child outliving the grace period','C18 (C18/respawn/TryGracefulRestartBeyondGrace/...)'),
+ 'C19-c':('C19','from_windows_str strips an optional SIG prefix: SIGSTOP parses as ForceStop.','the SIG-prefixed spelling of STOP through FromStr','C19 (C19/spelling/SIGSTOP/prefixed)'),
+ 'C20-c':('C20','has_file means "not a directory": FIFOs, sockets and symlinks named like a file marker count.','a marker name on a node that is neither a regular file nor a directory','C20 (C20/origins/spurious/not-a-marker/...-as-fifo ...) after odd node kinds were added'),
 }
 for name,(prop,what,needs,caught) in M.items():
     d=f'/verif/seeded/{name}'
